@@ -20,26 +20,22 @@ Definition never_missed_statement : Prop :=
    covered by the theorems; see C06_repaired_classes) *)
 Theorem C06_never_missed_refuted : ~ never_missed_statement.
 Proof. exact never_missed_refuted_lemma. Qed.
-Theorem C06_never_missed_refuted_classes :
-  violates w_connect /\ violates w_csn_connect /\ violates w_move_stale /\
-  (let s := run (v_log w_move_stale) st0 in
-   res (QCSN "api") (apply 9 (v_c w_move_stale) s) <> res (QCSN "api") s /\
-   fires (ws (QCSN "api") s) (touched 9 (v_c w_move_stale) s) = false).
+Theorem C06_never_missed_refuted_classes : violates w_connect /\ violates w_csn_connect.
 Proof. exact refuted_classes_lemma. Qed.
 
-(* partial: for every query outside the Connect pair (okq) and every reachable state in which the
-   checks carry their services' current names (Coherent: only a rename of a service id that has
-   checks breaks it -- the residue of the check-move repair, witness w_move_stale), every write;
-   the one write left out (safe_cmd) is a registration that renames its service id AND carries
-   checks in the same request.  Renames, check moves, check deletes, delete-trees are covered. *)
+(* partial: for every query outside the Connect pair (okq = safe_query), every reachable state and
+   every write.  Since 77429de no hypothesis on the state (Coherent) or on the write (safe_cmd) is
+   left: renames, check moves (also of checks whose stored service name is stale), check deletes,
+   delete-trees and registrations that rename their service while carrying checks are covered. *)
 Theorem C06_never_missed_partial :
-  forall hi s i c q, Reach hi s -> Coherent s -> hi < i -> safe_cmd c s -> safe_query q ->
+  forall hi s i c q, Reach hi s -> hi < i -> safe_query q ->
     res q (apply i c s) <> res q s ->
     idx q s < idx q (apply i c s) /\ fires (ws q s) (touched i c s) = true.
 Proof. exact never_missed_partial_lemma. Qed.
 
-(* the coherence hypothesis holds initially and is kept by every write that registers no service id
-   under another name *)
+(* coherence (every check row carries its service's current name) is no longer a hypothesis of any
+   theorem here; it stays as a fact about the data: it holds initially and is kept by every write that
+   registers no service id under another name (see C06_covers_incoherent for a state without it) *)
 Theorem C06_coherent_invariant :
   Coherent st0 /\ forall i c s, Coherent s -> rename_free c s -> Coherent (apply i c s).
 Proof. exact (conj Coherent_st0 Coherent_apply). Qed.
@@ -56,7 +52,7 @@ Definition monotone_statement : Prop :=
 Theorem C06_monotone_refuted : ~ monotone_statement.
 Proof. exact monotone_refuted_lemma. Qed.
 Theorem C06_monotone_partial :
-  forall hi s i c q, Reach hi s -> Coherent s -> hi < i -> safe_cmd c s -> safe_query q ->
+  forall hi s i c q, Reach hi s -> hi < i -> safe_query q ->
     (forall u, c <> Reap u) -> idx q s <= idx q (apply i c s).
 Proof. exact monotone_index. Qed.
 
@@ -73,7 +69,7 @@ Proof. exact loop_lemma. Qed.
 
 (* ---- a query blocked on the old index is woken, re-runs and returns the new index ---- *)
 Theorem C06_wakes :
-  forall hi s i c q, Reach hi s -> Coherent s -> hi < i -> 1 < i -> safe_cmd c s -> safe_query q ->
+  forall hi s i c q, Reach hi s -> hi < i -> 1 < i -> safe_query q ->
     res q (apply i c s) <> res q s ->
     fires (ws q s) (touched i c s) = true /\
     reported q s < reported q (apply i c s) /\
@@ -91,13 +87,25 @@ Proof. exact w_kvlist_repaired. Qed.
 
 (* ---- non-vacuity of the hypotheses ---- *)
 Example C06_hypotheses_met :
-  Reach 8 ex_state /\ Coherent ex_state /\ 8 < 9 /\ safe_cmd ex_cmd ex_state /\ safe_query (QCSN "web") /\
+  Reach 8 ex_state /\ 8 < 9 /\ safe_query (QCSN "web") /\
   res (QCSN "web") (apply 9 ex_cmd ex_state) <> res (QCSN "web") ex_state.
 Proof. exact hypotheses_met_lemma. Qed.
 (* and the refuting writes are exactly the excluded ones *)
 Example C06_hypotheses_exclude_witnesses :
-  ~ Coherent (run (v_log w_move_stale) st0) /\ ~ okq (v_q w_connect) /\ ~ okq (v_q w_csn_connect).
+  ~ okq (v_q w_connect) /\ ~ okq (v_q w_csn_connect).
 Proof. exact hypotheses_exclude_lemma. Qed.
+(* the theorems apply in a reachable state that is NOT coherent: the state of the former witness *)
+Example C06_covers_incoherent :
+  let s := run (v_log w_move_stale) st0 in Reach 7 s /\ ~ Coherent s /\ safe_query (QCSN "api").
+Proof. exact covers_incoherent_lemma. Qed.
+(* regression (77429de): moving a check with a stale stored service name now raises the index of the
+   service's current name and wakes its watch (was: 7 -> 7, no wake) *)
+Example C06_move_stale_repaired :
+  let s := run (v_log w_move_stale) st0 in
+  res (QCSN "api") (apply 9 (v_c w_move_stale) s) <> res (QCSN "api") s /\
+  idx (QCSN "api") s = 7 /\ idx (QCSN "api") (apply 9 (v_c w_move_stale) s) = 9 /\
+  fires (ws (QCSN "api") s) (touched 9 (v_c w_move_stale) s) = true.
+Proof. exact move_stale_repaired_lemma. Qed.
 
 (* ---- regression: the former witnesses of the repaired classes now satisfy the contract ---- *)
 Example C06_repaired_classes :
@@ -130,13 +138,13 @@ Proof. exact monotone_plain. Qed.
    than the index of its last write; hence the new index exceeds the index reported by ANY state of
    the history so far (s0), also one from before a tombstone reap lowered the index *)
 Theorem C06_highwater :
-  forall hi s i c q, Reach hi s -> Coherent s -> hi < i -> safe_cmd c s -> safe_query q ->
+  forall hi s i c q, Reach hi s -> hi < i -> safe_query q ->
     res q (apply i c s) <> res q s -> i <= idx q (apply i c s).
 Proof. exact highwater_okq. Qed.
 Theorem C06_index_bounded : forall hi s q, Reach hi s -> safe_query q -> idx q s <= hi.
 Proof. exact idx_bounded. Qed.
 Theorem C06_above_every_earlier :
-  forall hi0 s0 hi s i c q, Reach hi0 s0 -> hi0 <= hi -> Reach hi s -> Coherent s -> hi < i -> safe_cmd c s ->
+  forall hi0 s0 hi s i c q, Reach hi0 s0 -> hi0 <= hi -> Reach hi s -> hi < i ->
     safe_query q -> res q (apply i c s) <> res q s -> idx q s0 < idx q (apply i c s).
 Proof. exact above_every_earlier_lemma. Qed.
 Theorem C06_above_every_earlier_plain :
@@ -165,7 +173,7 @@ Proof. exact loop_exits_reachable. Qed.
 (* the wake of the blocked round IS the model's fires (not a scripted constant); a watch that stays
    silent leaves the query blocked until its timeout with the stale index *)
 Theorem C06_wakes_derived :
-  forall hi s i c q, Reach hi s -> Coherent s -> hi < i -> 1 < i -> safe_cmd c s -> safe_query q ->
+  forall hi s i c q, Reach hi s -> hi < i -> 1 < i -> safe_query q ->
     res q (apply i c s) <> res q s ->
     forall w rest,
       loop (LS (reported q s) false false)
@@ -177,7 +185,8 @@ Theorem C06_silent_watch_times_out :
     loop (LS (reported q s) false false) ((idx q s, ENone, wake_of false) :: rest) = XTimeout (reported q s).
 Proof. exact no_fire_times_out_lemma. Qed.
 
-(* non-vacuity of safe_cmd on EXISTING rows: a service update (same id and name) with its checks *)
+(* a service update (same id and name) with its checks on EXISTING rows changes the health view;
+   safe_cmd (a hypothesis of earlier rounds, no longer needed) holds of it *)
 Example C06_safe_update_met :
   Reach 8 ex_state /\ Coherent ex_state /\ safe_cmd ex_update ex_state /\
   res (QCSN "web") (apply 9 ex_update ex_state) <> res (QCSN "web") ex_state.
@@ -196,6 +205,8 @@ Print Assumptions C06_deltree_repaired.
 Print Assumptions C06_hypotheses_met.
 Print Assumptions C06_hypotheses_exclude_witnesses.
 Print Assumptions C06_repaired_classes.
+Print Assumptions C06_covers_incoherent.
+Print Assumptions C06_move_stale_repaired.
 Print Assumptions C06_never_missed_plain.
 Print Assumptions C06_monotone_plain.
 Print Assumptions C06_highwater.
